@@ -39,7 +39,7 @@ G = ("cls", NXMG)
 VV = ("cls", VARIABLE)
 REF = "yvref.c18"
 HELPERS = {f"{CG}.{x}" for x in (
-    "extract_interventions", "make_parallel_worlds_graph", "lemma_24_holds", "merge_pw", "is_inconsistent", "update_event", "_both_ways", "_get_directed_edges",
+    "extract_interventions", "make_parallel_worlds_graph", "lemma_24_holds", "merge_pw", "is_inconsistent", "update_event", "_get_directed_edges",
     "node_not_an_intervention_in_world", "stitch_counterfactual_and_doppleganger_neighbors", "stitch_counterfactual_and_dopplegangers",
     "stitch_counterfactual_and_neighbors", "stitch_factual_and_doppleganger_neighbors", "stitch_factual_and_dopplegangers", "World")}
 
@@ -177,7 +177,8 @@ def r18_predicates(model: Model, rep: Report) -> None:
     f = model.func(f"{CG}.nodes_attain_same_value")
     ev = _ev(model, prims={f"{CG}.has_same_confounders"})
     g, e, a, b = typed(ev, "graph", ("cls", NXMG)), typed(ev, "event", EVT), typed(ev, "a", V), typed(ev, "b", V)
-    rets = return_paths(ev.run(f, {"graph": g, "event": e, "a": a, "b": b}))
+    from ..symeval import bool_paths
+    rets = bool_paths(return_paths(ev.run(f, {"graph": g, "event": e, "a": a, "b": b})))
     got = f_or(*[f_and(*[sa.cond(c) for c in r.conds]) for r in rets if r.value == const(True)])
     nonbool = [r for r in rets if r.value not in (const(True), const(False))]
     same = sa.eq_atom(a, b)
